@@ -8,11 +8,12 @@ import (
 )
 
 type param struct {
-	name  string
-	t     *typ
-	v     *val
-	recv  bool
-	alias bool // recvMode: bound to the receiver's object
+	name     string
+	t        *typ
+	v        *val
+	recv     bool
+	alias    bool // recvMode: bound to the receiver's object
+	variadic bool
 }
 
 // summary of a translated function, used at its call sites.
@@ -66,6 +67,10 @@ type tr struct {
 	aliasArg     int    // recvMode: this parameter IS the receiver (p.Mul(s, p)); -1: none
 	inplace      bool   // some field integer of the receiver was written in place
 	temps        []*val // values held by an expression under evaluation
+	// loops mode
+	acc     *accTrack           // first-access tracking of the loop body being analysed
+	loopRet func(string) string // inside a loop body: wraps the value of a return statement
+	inJoin  int                 // > 0: inside a branch of an if that falls through
 }
 
 func (t *tr) fail(format string, args ...interface{}) {
@@ -238,13 +243,20 @@ func (t *tr) valueOf(v *val) string {
 	}
 	switch v.t.k {
 	case kZ, kFe:
+		if v.el != nil {
+			return t.readElem(v.el)
+		}
 		if v.c == nil {
 			t.fail("internal: integer without cell")
 		}
 		return t.read(v.c)
 	case kInt:
 		return t.asZ(v)
-	case kBool, kZList, kIface:
+	case kZList, kList:
+		return t.listExpr(v)
+	case kKeccak:
+		return t.read(v.c)
+	case kBool, kIface, kByte:
 		return v.e
 	case kArr, kArrPtr, kSlice:
 		return t.bytesOf(v)
